@@ -9,7 +9,8 @@
 From Coq Require Import ZArith List Bool Sorted Permutation.
 From V Require Import Model.ZMap Model.Quorum Model.HgImpl Proofs.AdmissionProofs Proofs.BlockInv
   Proofs.OrderSort Proofs.OrderFrames Proofs.OrderProofs Proofs.Static Proofs.Agreement Proofs.RoundReceived
-  Proofs.Committed Proofs.CausalityWitness Model.Window Proofs.GapWindow Proofs.CommittedD.
+  Proofs.Committed Proofs.CausalityWitness Model.Window Proofs.GapWindow Proofs.CommittedD
+  Proofs.BlockAgree Proofs.BlockAgreeD Proofs.OrderAgreeD.
 Import ListNotations.
 Open Scope Z_scope.
 
@@ -321,6 +322,43 @@ Proof.
     pi_db _ (hrun_pinvD s g o all ops Hs ID H B F) x ex R).
 Qed.
 Print Assumptions C04_processed_rounds_complete_dynamic.
+
+(* THE COMMITTED ORDER AGREES BETWEEN NODES under dynamic membership.  Two nodes started from the same genesis set
+   -- any selfs, oracles, operation sequences over one fork-free universe, joins and leaves accepted at will -- that
+   both respect the distance bound and have not failed: their k-th delivered blocks list the same events with the same
+   Lamport timestamps in the same order ([kl f] = the (event, Lamport) pairs of the frame, Proofs/BlockAgreeD.v), hence
+   the committed order ([corder st] = the concatenation over the delivered blocks) of the node with fewer blocks is
+   a prefix of the other's: an event committed at position (k, j) by one node is committed at (k, j) by every node
+   that has a k-th block.  With C04_order_extends_causality_dynamic: one order, shared by all such nodes, that
+   extends causality. *)
+Theorem C04_block_events_agree_dynamic : forall all genesis self1 self2 oracle1 oracle2 ops1 ops2 k d1 d2,
+  ids_determine all -> sigkeys_determine all -> fork_free all -> self1 <> -1 -> self2 <> -1 ->
+  Forall (hop_ok all) ops1 -> Forall (hop_ok all) ops2 ->
+  gap_runb (init_hg self1 genesis oracle1) ops1 = true -> gap_runb (init_hg self2 genesis oracle2) ops2 = true ->
+  let st1 := hrun (init_hg self1 genesis oracle1) ops1 in
+  let st2 := hrun (init_hg self2 genesis oracle2) ops2 in
+  failed st1 = false -> failed st2 = false ->
+  nth_error (delivered st1) k = Some d1 -> nth_error (delivered st2) k = Some d2 ->
+  map (fun fe => (fe_id fe, fe_lt fe)) (f_events (b_frame d1)) = map (fun fe => (fe_id fe, fe_lt fe)) (f_events (b_frame d2)).
+Proof.
+  exact (fun all g s1 s2 o1 o2 ops1 ops2 k d1 d2 ID SK FF S1 S2 H1 H2 B1 B2 F1 F2 =>
+           block_events_agree_gap all g ID SK FF s1 s2 o1 o2 ops1 ops2 S1 S2 H1 H2 B1 B2 F1 F2 k d1 d2).
+Qed.
+Print Assumptions C04_block_events_agree_dynamic.
+
+Theorem C04_committed_order_prefix_dynamic : forall all genesis self1 self2 oracle1 oracle2 ops1 ops2,
+  ids_determine all -> sigkeys_determine all -> fork_free all -> self1 <> -1 -> self2 <> -1 ->
+  Forall (hop_ok all) ops1 -> Forall (hop_ok all) ops2 ->
+  gap_runb (init_hg self1 genesis oracle1) ops1 = true -> gap_runb (init_hg self2 genesis oracle2) ops2 = true ->
+  let st1 := hrun (init_hg self1 genesis oracle1) ops1 in
+  let st2 := hrun (init_hg self2 genesis oracle2) ops2 in
+  failed st1 = false -> failed st2 = false ->
+  (length (delivered st1) <= length (delivered st2))%nat ->
+  exists l, corder st2 = corder st1 ++ l.
+Proof.
+  exact (fun all g s1 s2 o1 o2 ops1 ops2 ID SK FF => corder_prefix_gap all g ID SK FF s1 s2 o1 o2 ops1 ops2).
+Qed.
+Print Assumptions C04_committed_order_prefix_dynamic.
 
 (* REFUTED: the literal form "every ancestor of a committed event is in a delivered block" (without
    the payload premise).  Frames without transactions produce no block; in the 15-event, two-validator
